@@ -99,3 +99,6 @@ Record opts := mkOpts { o_min : Z; o_max : Z }.
 (* s[:a] and s[a:] with Python's rule for a negative bound *)
 Definition py_slice_upto {X} (l : list X) (a : Z) : list X := if a <? 0 then zfirstn (Z.max 0 (zlen l + a)) l else zfirstn a l.
 Definition py_slice_from {X} (l : list X) (a : Z) : list X := if a <? 0 then zskipn (Z.max 0 (zlen l + a)) l else zskipn a l.
+
+(* range(a, b, -1): a, a - 1, ..., b + 1 *)
+Definition py_range_down (a b : Z) : list Z := map Z.opp (py_range (- a) (- b) 1).
